@@ -326,7 +326,22 @@ class C06(BbProp):
                     return [viol("unregister-changed-values", "%s changed %s" % (o.op, changed))]
             return []
         elif op in ("dotget", "dotset"):
-            return []     # resolution of dotted access is compared through the correspondence and C15
+            # namespaced dotted access addresses the same data as attribute access of the key ns1/ns2/.../key
+            cl = C.get(int(t[1]))
+            if cl is None:
+                return []
+            a, loc = resolve(cl, t[2].replace(",", "/"))
+            if loc is None:
+                return self.cmp(o, S, None)
+            if op == "dotget":
+                if not can_read(cl, a):
+                    return self.cmp(o, S, None)
+                want = ("val " + val_str(val_parse(S[loc]))) if loc in S else "KeyError"
+            else:
+                if not can_write(cl, a):
+                    return self.cmp(o, S, None)
+                S[loc] = t[3]
+                want = "ok"
         return self.cmp(o, S, want)
 
     @staticmethod
@@ -369,6 +384,36 @@ class C07(BbProp):
             "after unregister_key and after rejected registrations; a non-permitted operation must raise and leave the "
             "store unchanged, storage may change only with write access; non-trivial = at least one denied and one "
             "granted operation on the same key")
+
+    def generate(self, rng, tier):
+        out = BbProp.generate(self, rng, tier)
+        # EXHAUSTIVE cross product: access level x history x stored value x operation (the quantifier of C07)
+        from common import Scenario
+        ops = ["setattr 1 b/k i:9", "getattr 1 b/k", "set 1 b/k i:9 1", "set 1 b/k i:9 0", "set 1 b/k.p i:9 1",
+               "set 1 b/k.q.r i:9 0", "get 1 b/k", "get 1 b/k.p", "exists 1 b/k", "exists 1 b/k.q.r", "unset 1 b/k",
+               "dotget 1 b,k", "dotset 1 b,k i:9", "getattr 1 /a/b/k", "set 1 /a/b/k.p i:9 1"]
+        n = 0
+        for acc in ("none", "R", "W", "X"):
+            for hist in ("plain", "unregistered", "rejected", "other-key"):
+                for val in ("absent", "i:1", "o{p=i:1,q=o{r=i:2}}"):
+                    pre = ["new a", "new a", "reg 0 b/k %s 0 -" % ("R" if acc == "X" else "W")]
+                    if val != "absent" and acc != "X":
+                        pre.append("setattr 0 b/k " + val)
+                    if acc != "none":
+                        pre.append("reg 1 b/k %s 0 -" % acc)
+                        if acc == "X" and val != "absent":
+                            pre.append("setattr 1 b/k " + val)
+                    if hist == "unregistered":
+                        pre.append("unregkey 1 b/k 0")
+                    elif hist == "rejected":
+                        pre += ["reg 0 b/j X 0 -", "reg 1 b/j W 0 -", "reg 1 b/j bad 0 -"]
+                    elif hist == "other-key":
+                        pre.append("reg 1 b/other W 0 -")
+                    for op in ops:
+                        op2 = op.replace("b/k", "b/j").replace("b,k", "b,j") if hist == "rejected" else op
+                        out.append(Scenario("bb", "C07_x_%d" % n, [], ["stream on 50"] + pre + [op2], {"strict": True}))
+                        n += 1
+        return out
 
     def check_op(self, prev, o, hist):
         t = o.op.split()
